@@ -143,6 +143,50 @@ pub fn check_tree(spec: &Spec) -> CheckResult {
     let d = dyn_clone::clone_box(&*s);
     let _ = *d == *s;
   });
+  // Clone of the concrete types (a BoxSource clone only bumps a reference count): every ReplaceSource of the tree cloned
+  // before anything observed it (its replacements are still pending, unsorted) and once more in the state "mutated,
+  // observed, mutated again"; ConcatSource and CachedSource nodes cloned cold
+  let mut nodes: Vec<&Spec> = vec![];
+  spec.walk(&mut |n, _| nodes.push(n), 0);
+  for n in nodes {
+    match n {
+      Spec::Replace { inner, repls } => {
+        lib_or_known!(spec, "ReplaceSource::clone (never observed)", {
+          let r = crate::build::build_replace(inner, repls);
+          let c = r.clone();
+          let _ = c == r;
+          (c.source().len(), r.source().len(), hash_of(&c))
+        });
+        if let Some((last, head)) = repls.split_last() {
+          lib_or_known!(spec, "ReplaceSource::clone (mutated, observed, mutated)", {
+            let mut r = crate::build::build_replace(inner, head);
+            let _ = r.source().len();
+            crate::build::apply_repl(&mut r, last);
+            let c = r.clone();
+            let _ = c == r;
+            (c.source().len(), c.map(&opts(true, false)).is_some())
+          });
+        }
+      }
+      Spec::Concat { how, children } => {
+        lib_or_known!(spec, "ConcatSource::clone", {
+          let r = crate::build::build_concat(*how, children);
+          let c = r.clone();
+          let _ = c == r;
+          c.source().len()
+        });
+      }
+      Spec::Cached(i) => {
+        lib_or_known!(spec, "CachedSource::clone", {
+          let r = rspack_sources::CachedSource::new(build(i));
+          let c = r.clone();
+          let _ = c == r;
+          (c.source().len(), r.map(&opts(true, false)).is_some(), c.map(&opts(true, false)).is_some())
+        });
+      }
+      _ => {}
+    }
+  }
   for columns in [true, false] {
     for final_source in [false, true] {
       lib_or_known!(spec, "stream_chunks", stream(&*s, &opts(columns, final_source)));
